@@ -2,6 +2,7 @@
 package errctl
 
 import (
+	"bufio"
 	"fmt"
 	"io"
 	"text/tabwriter"
@@ -67,4 +68,39 @@ func BadDomain(n int, weights func(i, j int) int) int {
 		}
 	}
 	return s
+}
+
+func BadDeferredFlush(w io.Writer, n int) (err error) {
+	bw := bufio.NewWriter(w)
+	defer bw.Flush()
+	for i := 0; i < n; i++ {
+		if _, err = bw.WriteString("x\n"); err != nil {
+			return err
+		}
+	}
+	return nil
+}
+
+func BadNeverFlushed(w io.Writer, n int) error {
+	bw := bufio.NewWriter(w)
+	for i := 0; i < n; i++ {
+		if _, err := bw.WriteString("x\n"); err != nil {
+			return err
+		}
+	}
+	if n > 3 {
+		return nil
+	}
+	return bw.Flush()
+}
+
+// a harmless defer spills the named result; the checks must still be recognised
+func GoodWithDefer(w io.Writer, done func()) (err error) {
+	defer done()
+	_, err = io.WriteString(w, "head\n")
+	if err != nil {
+		return err
+	}
+	_, err = io.WriteString(w, "tail\n")
+	return err
 }
